@@ -38,6 +38,14 @@ add("C06", "exploration",
     "Oracle = /verif/ref/refchain (most cumulative work = sum 2^256/(target+1), first seen wins ties, invalid-at-connect branches excluded with descendants). All blocks carry the same difficulty, so heavier-but-shorter branches are not exercised.",
     "DESIGN.md §3 C06")
 
+add("C07", "fault_enumeration",
+    "crash-point enumeration: worker killed by SIGKILL at the n-th hit of build-tag hook points between file-system effects, fresh-process reopen (library and client-style), recovery oracle from the reference model; plus tail truncations of the block files",
+    "Held on the crash points observed: for several generated workloads (extend with saves in flight / aborted, snapshot-then-reorganisation, heavier branch invalid at connect, data-file roll-over, slow and fast snapshot writer) "
+    "the worker is killed at sampled (quick) or all (thorough) hits of ~28 hook points; each directory is reopened by a fresh process in library mode and in client-style mode; the reopened tip must be a block the node had connected before the crash, "
+    "its UTXO dump must equal the reference replay of that block, and after feeding the remaining blocks tip and UTXO must equal the uninterrupted reference run; clean shutdown must restart to exactly the final state.",
+    "Crash = process death with intact page cache. Crash points exist only where vhook.Point calls were placed (between every pair of file-system effects found by reading the code). Client-style reopen re-implements do_the_blocks/LocalAcceptBlock in the harness.",
+    "DESIGN.md §3 C07")
+
 NOT_BUILT = {}
 
 def main():
